@@ -92,6 +92,15 @@ CHECKS = {
              "identical before and after. Exhaustive over fault positions per form/shape.",
         note="Trusted: snapshot function; probe counting; closed set of forms and four parameter shapes plus generated real vectors.",
         design="3/C07"),
+    "C08": dict(
+        category="exploration",
+        technique="differential property-based testing (Hypothesis expression-tree strategies): backend=numpy vs backend=torch on value, kind and writer text",
+        text="Generated numeric-core programs (depth<=3) and compiler-only programs over scalar/vector/matrix bindings are "
+             "evaluated under both backends; when both return, shape, integer/real kind, elements (single-precision tolerance) and "
+             "the tokenised writer text must agree; compiler-only programs must be accepted by both. Exploration-level.",
+        note="Trusted: numpy backend as the reference side of the differential; domain guards (integer operands for ! and :%, no "
+             "poles, magnitudes < 2^24); near-integral reals may come back as integers from float32.",
+        design="3/C08"),
 }
 
 NOT_APPLICABLE = {
